@@ -67,8 +67,11 @@ def run(ctx):
                 heads = set(h for (_, h) in cfg.back_edges(fn))
                 r = cfg.reachable(fn, starts, removed_blocks=list(heads))
                 errs = [e for e in cfg.exit_sites(fn) if e["kind"] in ("Err", "residual") and e["bb"] in r]
+                early = [e for e in cfg.exit_sites(fn) if e["kind"] not in ("Err", "residual", "None") and e["bb"] in r] if heads else []
                 if errs:
                     ctx.finding("C15.N2", fn, "absent:%s" % which, "an absent disclosure makes the selection fail with an error instead of being skipped", line=line)
+                elif early:
+                    ctx.finding("C15.N2", fn, "absent-aborts-walk:%s" % which, "when a disclosure is absent the walk over the remaining elements is abandoned (the function returns without going back to the loop header): later selected elements are silently dropped", line=line)
                 else:
                     ctx.ok("C15.N2", fn, "absent:%s" % which, "an absent disclosure is skipped (the iteration continues)", line=line)
             elif nm == "get":
